@@ -34,6 +34,12 @@ RULE = ('one run = one seeded FileStorage history with packs and reopens; '
         'non-trivial = the index variant differs from the newest index or '
         'the image has an unfinished tail; distinct = hash of (data file, '
         'index bytes, mode)')
+RULE += ('  '
+         'Later additions: read-only opens where there is no data file '
+         "(incl. the window between a pack's two renames) create and "
+         'change nothing; time-travel opens (stop=) with and without '
+         'the newest saved index give the same state; read-only opens '
+         'of files with a zero tail. ')
 BUDGET = {'quick': {'runs': 1600, 'wall': 300, 'chunk': 10},
           'thorough': {'runs': 100000, 'wall': 1800, 'chunk': 20}}
 ASSUMPTIONS = [
